@@ -2,9 +2,10 @@ import NdnModel.Sql
 import NdnGen.C15
 /-
   Executable model of the sqlite keychain
-  (src/ndn/security/keychain/keychain_sqlite3.py + security/tpm/tpm_file.py), as *repaired* by
-  candidate_fixes/C15-*.diff (`Key.__len__` counts certificates, `Key.__getitem__` /
-  `Identity.__getitem__` scoped to the owner, `_signer_cache` keyed by (key name, key locator)).
+  (src/ndn/security/keychain/keychain_sqlite3.py + security/tpm/tpm_file.py + tpm.py), as *repaired* in /repo
+  (candidate_fixes/applied-C15-*.diff and the F12 repairs: `Key.__len__` counts certificates, `Key.__getitem__` /
+  `Identity.__getitem__` scoped to the owner, `_signer_cache` keyed by (key name, key locator),
+  `TpmFile.generate_key` refuses a key name whose private key is already stored).
 
   * three row lists (identities / keys / certificates) with `is_default` flags and sqlite rowids
     (`INTEGER PRIMARY KEY` without AUTOINCREMENT: max+1, so ids are re-used after a delete);
